@@ -133,7 +133,68 @@ def run(tier, seed, replay):
         run.failure({"clause": clause, "where": where, "count": len(fls), "first": fls[0]["ev"]})
     run.traces += 1
     run.evaluations += s["events"]
-    run.nontrivial = s["reads"] + s["lookups"]
+    # 4. upper layer: the tile-index cache protocol of VersaTilesReader (spec/Reader.tla)
+    #    design level: every interleaving of the lookup steps for a few tasks and blocks, cache smaller than the block set
+    rmc = C.run_tlc("mc/MC_Reader.tla", "mc/MC_Reader_%s.cfg" % tier, "C13_mc_reader", workers=8, timeout=1800, heap="24g")
+    C.require_clean(rmc, "MC_Reader (mutual exclusion, own tile, one critical section per lookup)")
+    run.add_tlc(rmc)
+    live = C.run_tlc("mc/MC_Reader.tla", "mc/MC_Reader_live.cfg", "C13_mc_reader_live", workers=4, timeout=900)
+    C.require_clean(live, "MC_Reader liveness (no lookup waits for ever for the cache)")
+    run.add_tlc(live)
+    #    the invariants are not vacuous: the 'does not wait for the lock' variant of the protocol violates them
+    neg = C.run_tlc("mc/MC_Reader.tla", "mc/MC_Reader_bypass.cfg", "C13_mc_reader_bypass", workers=4, timeout=900)
+    if not any("Invariant" in e and "violated" in e for e in neg.errors):
+        raise C.ToolError("MC_Reader with Variant=bypass was expected to violate an invariant (the model would be vacuous): %s" % neg.errors[:3])
+    #    code -> spec: a recorded concurrent execution (hook H2 logs every critical section under the cache mutex)
+    tcache = os.path.join(d, "trace_cache.ndjson")
+    sc = C.run_harness(hb, ["cachetrace", "C13", tcache, C.scratch_dir("C13cache")], timeout=1200)
+    vc = C.validate_trace("trace/Trace_Reader.tla", "trace/Trace_Reader.cfg", "C13_trace_cache", tcache, timeout=1800, allow_reject=True)
+    run.add_tlc(vc)
+    fails = list(vc.fails)
+    if vc.rejected_at is not None:
+        # the protocol of Reader.tla does not explain the log: is the cache's CONTRACT still kept (tolerant specification)?
+        lines = open(tcache).read().splitlines()
+        ctx = lines[max(0, vc.rejected_at - 6):vc.rejected_at + 1]
+        vt = C.validate_trace("trace/Trace_Reader.tla", "trace/Trace_Reader_tolerant.cfg", "C13_trace_cache_tolerant", tcache, timeout=1800, allow_reject=True)
+        run.add_tlc(vt)
+        if vt.rejected_at is None:
+            run.observation("cache_protocol_drift", {"what": "the recorded execution keeps the cache's contract but does not follow the "
+                            "lookup protocol of spec/Reader.tla (strict): the specification should be brought up to date",
+                            "consumed": vc.rejected_at, "of": len(lines), "unexplained_event": vc.rejected_event, "context": ctx})
+            fails = list(vt.fails)
+        else:
+            lines_t = lines[max(0, vt.rejected_at - 6):vt.rejected_at + 1]
+            run.failure({"clause": "cache_contract", "where": "versatiles tile-index cache", "consumed": vt.rejected_at, "of": len(lines),
+                         "unexplained_event": vt.rejected_event, "context": lines_t})
+    for (line, fl) in fails:
+        run.failure({"clause": fl["clauses"][0], "where": "versatiles tile-index cache", "count": 1, "first": fl["ev"]})
+    run.traces += sc["rounds"]
+    run.evaluations += sc["events"]
+    #    the binding is not vacuous either: a log with one critical section removed / one key set altered is rejected
+    recs = [json.loads(x) for x in open(tcache)]
+    fills = [i for i, r in enumerate(recs) if r["ev"] == "Fill"]
+    hits = [i for i, r in enumerate(recs) if r["ev"] == "Hit"]
+    muts = []
+    if fills:
+        muts.append(("drop_fill", [r for i, r in enumerate(recs) if i != fills[len(fills) // 2]]))
+        m = [dict(r) for r in recs]
+        m[fills[len(fills) // 3]]["keys"] = []
+        muts.append(("fill_not_cached", m))
+    if hits:
+        m = [dict(r) for r in recs]
+        m[hits[len(hits) // 2]]["ev"] = "Fill"
+        muts.append(("hit_relabelled_fill", m))
+    for name, m in muts:
+        tm = os.path.join(d, "trace_cache_%s.ndjson" % name)
+        with open(tm, "w") as f:
+            for r in m:
+                f.write(json.dumps(r) + "\n")
+        vm = C.validate_trace("trace/Trace_Reader.tla", "trace/Trace_Reader.cfg", "C13_trace_cache_" + name, tm, timeout=900, allow_reject=True)
+        if vm.rejected_at is None:
+            raise C.ToolError("the corrupted cache log '%s' was ACCEPTED by Trace_Reader: the binding would be vacuous" % name)
+    run.extra = dict(getattr(run, "extra", {}) or {}, cache_trace_events=sc["events"], cache_trace_lookups=sc["lookups"],
+                     cache_trace_states=vc.distinct, corrupted_logs_rejected=[n for n, _ in muts])
+    run.nontrivial = s["reads"] + s["lookups"] + sc["lookups"]
     run.rule = ("MC: all interleavings of 3 concurrent callers whose per-call step sequence is the one the real "
                 "read_range/read_all performs (extracted by strace); stress: 2..16 OS threads and 2..16 tokio tasks x random "
                 "ranges on ONE DataReaderFile, 16 tasks x random tile lookups on one versatiles/pmtiles/tar reader; every "
